@@ -52,7 +52,8 @@ bool case_insensitive_less(const string& left,
       // Cannot be equal as that was the previous case.
       return true;
     }
-  return tolower(*result.first) < tolower(*result.second);
+  return tolower(static_cast<unsigned char>(*result.first))
+    < tolower(static_cast<unsigned char>(*result.second));
 }
 
 bool case_insensitive_equal(const string& left,
